@@ -105,6 +105,10 @@ def build_fn(item, spec, canary, log):
     mask = mask_source(text)
     body_open = _loop_body_open(mask, 0) if item.kind == "fn" else None
     if item.kind != "fn":
+        if item.kind == "struct" and spec.get("pub_fields"):
+            # make private fields visible to `open spec fn`s (visibility only; listed in the unit)
+            text, n = re.subn(r"(?m)^(\s+)(?!pub\b)(\w+\s*:)", r"\1pub \2", text)
+            log.append("%s: %d private field(s) made pub" % (fn_id, n))
         return fn_id, text, [], []
     sig, body = text[:body_open], text[body_open:]
     msig = mask[:body_open]
@@ -383,6 +387,13 @@ def verify_unit(unit, repo, workdir, keep=False):
         f.write(asm_c.text())
     res = run_verus(path, rlimit=unit.get("rlimit"), extra=unit.get("verus_args"))
     failures, undecided = analyse(asm, res)
+    # An exhausted resource limit is not a verdict: retry with larger limits before giving up.
+    for rl in unit.get("rlimit_retry", [100, 400]):
+        if not any(u.startswith("rlimit") for u in undecided):
+            break
+        out.setdefault("rlimit_retries", []).append(rl)
+        res = run_verus(path, rlimit=rl, extra=unit.get("verus_args"), timeout=900)
+        failures, undecided = analyse(asm, res)
     out["failures"] = failures
     out["undecided"] += undecided
     out["cmd"] = res["cmd"]
